@@ -268,8 +268,26 @@ def restart(ctx, rng, idx):
         if all(np.all(np.isfinite(d)) for d in t6[-1]["data"] + t7[-1]["data"]):
             if implicit and s.model.islinear:
                 if not s.rname.startswith("muscl"):
+                    # the two objects hold finite-difference Jacobians of the same linear operator taken at different states
+                    # (relative noise ~1e-7): the linear solves amplify that by the condition number of the step matrix
+                    # (near-singular for anti-dissipative operators at these CFL numbers; thorough-tier witness)
+                    # The difference is measured against the INITIAL data scale: damped modes decay by orders of magnitude while
+                    # the noise left in the neutral (mean) mode does not (thorough-tier witness, seed 2).
                     d = _diff(t7[-1], t6[-1])
-                    ctx.close("restart-other-cfl-linear", max(d["max data diff / max|q|"], abs(d["dtime"]) / (abs(t7[-1]["time"]) + 1e-300)), 1e-4 * max(1.0, cfl), "restart/other-cfl/state-depends-on-previous-call/implicit-linear", d, cls="restart-same-object")
+                    q0 = max(float(np.max(np.abs(x))) for x in s.field.data) + 1e-300
+                    d["max data diff / max|q(0)|"] = max(float(np.max(np.abs(x - y))) for x, y in zip(t7[-1]["data"], t6[-1]["data"])) / q0
+                    try:
+                        with probes.quiet():
+                            dt = float(np.min(s.disc.calc_timestep(s.field, cfl2)))
+                        theta = 1.0 if iname in ("implicit", "backwardeuler") else 0.5
+                        cond = float(np.linalg.cond(np.eye(S6.jacobian.shape[0]) / dt - theta * S6.jacobian))
+                    except Exception:
+                        cond = float("nan")
+                    d["condition number of the step matrix"] = cond
+                    if not cond <= 1e6:
+                        ctx.skip("restart-other-cfl-linear:ill-conditioned-step-matrix")
+                    else:
+                        ctx.close("restart-other-cfl-linear", max(min(d["max data diff / max|q|"], d["max data diff / max|q(0)|"]), abs(d["dtime"]) / (abs(t7[-1]["time"]) + 1e-300)), 1e-4 * max(1.0, cfl) + 1e-6 * cond * M, "restart/other-cfl/state-depends-on-previous-call/implicit-linear", d, cls="restart-same-object")
             else:
                 ctx.true("restart-same-object", _same(t7[-1], t6[-1]), "restart/other-cfl/state-depends-on-previous-call/" + who, dict(_diff(t7[-1], t6[-1]), cfl_first=cfl, cfl_restart=cfl2), cls="restart-same-object")
     # a solve() after the restart starts counting from zero again (iteration tags, monitor records, totnit)
@@ -289,7 +307,9 @@ def restart(ctx, rng, idx):
             if s.rname.startswith("muscl"):
                 ctx.skip("restart-fresh:frozen-jacobian-with-limiter")
             else:
-                ctx.close("restart-fresh-linear", d["max data diff / max|q|"], 1e-4 * max(1.0, cfl), "restart/fresh-object/state-differs/implicit-linear", d, cls="restart-fresh-object")
+                q0 = max(float(np.max(np.abs(x))) for x in s.field.data) + 1e-300       # against the initial scale as well (see above)
+                d["max data diff / max|q(0)|"] = max(float(np.max(np.abs(x - y))) for x, y in zip(full[-1]["data"], t3[-1]["data"])) / q0
+                ctx.close("restart-fresh-linear", min(d["max data diff / max|q|"], d["max data diff / max|q(0)|"]), 1e-4 * max(1.0, cfl), "restart/fresh-object/state-differs/implicit-linear", d, cls="restart-fresh-object")
         else:
             ctx.true("restart-fresh-object", _same(full[-1], t3[-1]), "restart/fresh-object/state-differs/" + who, _diff(full[-1], t3[-1]), cls="restart-fresh-object")
         ctx.true("restart-fresh-object", S3.totnit() == N + M, "restart/fresh-object/cumulative-iteration-count", {"totnit": S3.totnit()}, cls="restart-fresh-object")
